@@ -102,3 +102,6 @@ let ghost before = derefs(fields@);''')},
 
 UNITS = {'c22_lookahead_filter': (['C22'], lookahead_unit)}
 SEARCH = {'c22_lookahead_filter': ['c22_lookahead']}
+BOUNDED = {'C22': [dict(case='c22_lookahead', function='src/context.rs::SelectionFieldsIter::next / SelectionField::{arguments, selection_set} and Lookahead through Context::look_ahead (as seen by a resolver during Schema::execute)',
+                        bound='12 documents (duplicated fields, aliases, inline fragments with and without type condition, nested spreads, variable arguments) x 9 look-ahead paths + the full recursive selection view',
+                        why='SelectionFieldsIter is a hand-written iterator over a stack of boxed iterators (dyn Iterator); not within Verus; filter / Lookahead::field are under contract')]}
